@@ -27,6 +27,22 @@ Definition dot3 (a b : v3) : T :=
   let '(a0, a1, a2) := a in let '(b0, b1, b2) := b in oadd o (oadd o (omul o a0 b0) (omul o a1 b1)) (omul o a2 b2).
 Definition dist3 (a b : v3) : T := norm3 (sub3 b a).
 
+(* the CODE's geometry (geometry.cross / norm / distance / triangle_area, Vec.norm / normalized, as applied by
+   attributes.edge_length / face_area / face_normals): component expressions generated in Gen.v.  The definitions
+   above (cross3, norm3, dist3) and tri_area / tri_normal below are the mathematical reference the theorems are stated
+   with; Proofs_Geometry shows that the code's versions coincide with them. *)
+Definition c_cross3 (a b : v3) : v3 :=
+  let '(a0, a1, a2) := a in let '(b0, b1, b2) := b in
+  (cross_c0 o a0 a1 a2 b0 b1 b2, cross_c1 o a0 a1 a2 b0 b1 b2, cross_c2 o a0 a1 a2 b0 b1 b2).
+Definition c_edge_len (A B : v3) : T :=
+  let '(ax, ay, az) := A in let '(bx, by_, bz) := B in
+  geom_norm_l2 o (sumsq3 (distance_diff o ax bx, distance_diff o ay by_, distance_diff o az bz)).
+Definition c_tri_area (A B C : v3) : T :=
+  tri_area_of_norm o (vec_norm_l2 o (sumsq3 (c_cross3 (sub3 B A) (sub3 C A)))).
+Definition c_tri_normal (A B C : v3) : v3 :=
+  let n := c_cross3 (sub3 B A) (sub3 C A) in let l := vec_norm_l2 o (sumsq3 n) in
+  let '(x, y, z) := n in (normalized_coord o x l, normalized_coord o y l, normalized_coord o z l).
+
 (* ------------------------------------------------------------------ sphere / ball *)
 (* g = the three N(0,1) draws of one row *)
 Definition sphere_pt (radius : T) (c g : v3) : v3 :=
@@ -96,7 +112,7 @@ Definition nth_res {A} (l : list A) (i : Z) : res A :=
 
 (* ------------------------------------------------------------------ polyline *)
 Definition edge_lengths (V : list v3) (E : list (Z * Z)) : res (list T) :=
-  res_seq (map (fun e => res_bind (nth_res V (fst e)) (fun a => res_bind (nth_res V (snd e)) (fun b => Ok (dist3 a b)))) E).
+  res_seq (map (fun e => res_bind (nth_res V (fst e)) (fun a => res_bind (nth_res V (snd e)) (fun b => Ok (c_edge_len a b)))) E).
 Definition poly_probs (lens : list T) : list T := map (fun w => poly_prob o w (tsum lens)) lens.
 
 (* the edges the loop visits: what `choice` returned when NE > 1, else the default edge n times *)
@@ -124,9 +140,9 @@ Definition tri_normal (A B C : v3) : v3 :=
   let n := cross3 (sub3 B A) (sub3 C A) in let l := norm3 n in
   let '(x, y, z) := n in (odiv o x l, odiv o y l, odiv o z l).
 Definition face_areas (V : list v3) (F : list tri) : res (list T) :=
-  res_seq (map (fun f => res_bind (tri_pts V f) (fun p => let '(A, B, C) := p in Ok (tri_area A B C))) F).
+  res_seq (map (fun f => res_bind (tri_pts V f) (fun p => let '(A, B, C) := p in Ok (c_tri_area A B C))) F).
 Definition face_normals (V : list v3) (F : list tri) : res (list v3) :=
-  res_seq (map (fun f => res_bind (tri_pts V f) (fun p => let '(A, B, C) := p in Ok (tri_normal A B C))) F).
+  res_seq (map (fun f => res_bind (tri_pts V f) (fun p => let '(A, B, C) := p in Ok (c_tri_normal A B C))) F).
 Definition surf_probs (areas : list T) : list T := map (fun w => surf_prob o w (tsum areas)) areas.
 
 Definition surf_pt_of (A B C : v3) (u1 u2 : T) : v3 :=
